@@ -65,7 +65,7 @@ DEFAULT_WEIGHTS = {
     'add_server': 2, 'del_server': 2, 'replace_server': 3,
     'down': 4, 'up': 4, 'freeze': 2, 'blacklist': 2, 'unblacklist': 1,
     'renew': 2, 'group': 3, 'del_group': 1, 'alloc_update': 2, 'clock': 5,
-    'reload_cell': 1, 'regroup': 1,
+    'reload_cell': 1, 'regroup': 1, 'valid_until': 2,
 }
 
 
@@ -497,6 +497,14 @@ class CellDriver:
             self.op_clock(self.gen_clock_step())
         elif kind == 'reload_cell':
             self.op_reload_cell()
+        elif kind == 'valid_until' and servers:
+            # loader.set_server_valid_until -> Partition.add -> RebootBucket.add: the reboot time of a
+            # server is re-assigned in place (earlier or later), instances stay where they are
+            name = rng.choice(servers)
+            vu = self.clock.peek() + rng.choice([10, 30, 90, 150, 400, 3000])
+            self._server_obj(name).valid_until = vu
+            H.servers[name]['valid_until'] = vu
+            self.ops.append(('valid_until', name, vu))
         elif kind == 'renew':
             return 'renew'
         return kind
